@@ -293,6 +293,26 @@ def rule_ring(ctx):
                        for n in own_nodes(purge.node))
     ctx.check(R, writes_first, purge.qname, "self.firstIndex = index in _purge",
               "_purge must advance firstIndex past the expired prefix", purge.loc())
+    # eviction: the slot that is dropped from the dictionary is the one firstIndex pointed at BEFORE it advances
+    seti = ctx.index.func("sessioncache:SessionCache.__setitem__")
+    gs = ctx.an.cfg(seti)
+    adv = [n for n in gs.nodes if n.kind == "stmt" and isinstance(n.ast, ast.Assign)
+           and any(attr_chain(t) == "self.firstIndex" for t in n.ast.targets)]
+    dels = [n for n in gs.nodes if n.kind == "stmt" and isinstance(n.ast, ast.Delete)
+            and "self.entriesDict" in norm(n.ast) and "self.firstIndex" in norm(n.ast)]
+    full = [t for t in gs.nodes if t.kind == "test" and {"self.lastIndex", "self.firstIndex"} <=
+            {attr_chain(x) for x in ast.walk(t.expr) if isinstance(x, ast.Attribute)}]
+    if not adv or not full:
+        raise AnalysisError("C18.RING: eviction in SessionCache.__setitem__ not recognised")
+    after = gs.reach([m for a in adv for m in gs.normal_succ(a)], follow_exc=False)
+    late = [d for d in dels if d.id in after]
+    before = gs.reach(gs.succ_on(full[0], "T"), blocked=dels, follow_exc=False)
+    ctx.check(R, bool(dels) and not late and not any(a.id in before for a in adv), seti.qname,
+              "eviction deletes the oldest slot before advancing firstIndex",
+              "when the ring is full __setitem__ must delete the dictionary entry of the slot firstIndex points at "
+              "and only then advance firstIndex; advancing first deletes a LIVE entry and leaves the evicted one "
+              "in the dictionary (returned although evicted, and _purge later raises KeyError)",
+              seti.loc(late[0].ast) if late else seti.loc())
     getit = ctx.index.func("sessioncache:SessionCache.__getitem__")
     g = ctx.an.cfg(getit)
     purges = [n for n in g.nodes if n.kind == "stmt" and "self._purge()" in norm(n.ast)]
